@@ -1,3 +1,4 @@
+\* exhaustive: strings of 255/256 bytes (two-byte length heads)
 SPECIFICATION Spec
 CONSTANTS
   Ints <- LongInts
@@ -8,4 +9,5 @@ CONSTANTS
   MaxDepth = 2
   MaxArr = 2
   MaxPairs = 1
-INVARIANTS TypeOK RoundTrip SelfDelimiting NoItemIsAPrefix PrefixFree CanonicalEncoding ReEncode HeadIsShortest WrapIsExact
+  AllowWrap = TRUE
+INVARIANTS TypeOK RoundTrip SelfDelimiting NoItemIsAPrefix PrefixFree CanonicalEncoding ReEncode HeadIsShortest WrapIsExact 
